@@ -423,7 +423,9 @@ class FitOutputManager:
         if parameter_name == "mixing_matrix":
             ax[i].set_title(parameter_name + " " + model.features[index])
         elif parameter_name == "zeta":
-            ax[i].set_title(parameter_name + " " + "event" + " " + str(index + 1))
+            # a single-column parameter (one event) is saved without index
+            event_number = 1 if index is None else index + 1
+            ax[i].set_title(parameter_name + " " + "event" + " " + str(event_number))
         elif parameter_name.startswith("sourcewise"):
             ax[i].set_title(
                 parameter_name.replace("sourcewise_", "")
